@@ -120,6 +120,8 @@ def _shard(indices):
                 _JUDGE.judge(ctx, ld, info)
             except loader.HarnessError:
                 raise
+    for v in ctx.violations:
+        v.setdefault("alt_cases", []).append(dict(v["case"], shard=list(indices)))
     return dict(ctx.counts), ctx.violations, ctx.samples
 
 
@@ -151,3 +153,25 @@ def replay_program(tier, index):
     p, info = make_program(index, uni[index])
     (ld,) = genpipe.load_batch([p])
     return ld, info
+
+
+def replay_whole(tier, index, judge):
+    """Context fallback for replay files: re-run the judge on the whole program (every value in
+    enumeration order) in this fresh process; for code under test that leaks state between calls."""
+    ld, info = replay_program(tier, index)
+    ctx = Ctx(tier, 0)
+    judge.judge(ctx, ld, info)
+    if ctx.violations:
+        return ctx.violations[0]["what"] + " (found while re-running every case of this program in order)"
+    return None
+
+
+def replay_shard(tier, indices, judge):
+    """Last-resort context for replay files: re-run the whole shard the violation was found in."""
+    global _JUDGE, _TIER, _SEED, _UNIVERSE
+    _JUDGE, _TIER, _SEED = judge, tier, 0
+    _UNIVERSE = universe(tier)
+    _, violations, _ = _shard([int(i) for i in indices])
+    if violations:
+        return violations[0]["what"] + " (found while re-running its whole shard in order: state leaks between programs)"
+    return None
